@@ -100,7 +100,9 @@ def native(name, conc, notes):
     trace, outcome = run_real(target, reads)
     bad = oracle(trace, outcome, target)
     return {"inputs": {"target": target, "terminal_answers(state,error,status,reserved)": reads},
-            "reproduced": bool(bad) if outcome != "script exhausted (still polling)" or bad else None,
+            # an intermediate obligation (loop invariant) that fails has a
+            # failing input only if the trace violates a clause of the property
+            "reproduced": True if bad else (None if (".loop" in name or "still polling" in outcome) else False),
             "detail": f"real coroutine with scripted terminal: trace={trace} outcome={outcome}; "
                       f"violated clauses: {bad}"}
 
